@@ -240,6 +240,8 @@ def gen_cases(rng, n):
                 "ops": rnd_ops(rng)}
         if rng.random() < 0.3:
             case["rename"] = True
+        if rng.random() < 0.5:
+            case["deco_probes"] = True
         yield case
 
 
@@ -254,7 +256,7 @@ def template_text(t):
     return _default_message() if t["kind"] == "default" else t["text"]
 
 
-def _mk_classes(events):
+def _mk_classes(events, deco=False):
     """recording pool; Tap (below an opaque object: what it does to its target's demand) and Probe
     (above it: the demand calls that arrive and what they return).  Both forward all four attributes."""
     from cobald.interfaces import Pool
@@ -277,7 +279,12 @@ def _mk_classes(events):
             self._d = v
     RecPool.__qualname__ = "RecPool"
 
-    class Tap(Pool):
+    # the measuring pools around an opaque decorator are, in half of the cases, decorators themselves (as a user's own
+    # PoolDecorator subclass would be): what a Logger reports must not depend on what KIND of object its target is
+    from cobald.interfaces import PoolDecorator
+    Base = PoolDecorator if deco else Pool
+
+    class Tap(Base):
         def __init__(self, target, lvl):
             self.target, self.lvl = target, lvl
 
@@ -296,9 +303,10 @@ def _mk_classes(events):
             self.target.demand = v
 
     def probe_class(qualname):
-        class Probe(Pool):
+        class Probe(Base):
             def __init__(self, obj, lvl):
                 self.obj, self.lvl = obj, lvl
+                self.target = obj
 
             supply = property(lambda self: self.obj.supply)
             utilisation = property(lambda self: self.obj.utilisation)
@@ -416,7 +424,7 @@ def run_impl(case):
     from cobald.decorator.buffer import Buffer
     inf = float("inf")
     events = []
-    RecPool, Tap, probe_class = _mk_classes(events)
+    RecPool, Tap, probe_class = _mk_classes(events, deco=bool(case.get("deco_probes")))
     probes = {"std": probe_class("Standardiser"), "buffer": probe_class("Buffer")}
     pool = RecPool(*[un(x) for x in case["pool"]])
     depth_of = {id(pool): 0}
